@@ -70,3 +70,98 @@ func VH_C02_ring_from_init() {
 	_, ok := q.Pop()
 	vrtAssert(!ok, "drain-matches-ref")
 }
+
+// vhRingState builds an arbitrary valid ring state for capacity mod: head and
+// tail anywhere in [0,mod), the live window filled with fresh symbolic items,
+// every other slot nil. Representation invariant (derived from New/Push/Pop):
+// len == (tail-head) mod mod, len <= mod-1, len(buffer) == mod.
+func vhRingState(mod int) (*RingQueue, []uint8) {
+	head := vrtChoose(mod)
+	tail := vrtChoose(mod)
+	n := (tail - head + mod) % mod
+	buf := make([]interface{}, mod)
+	var abs []uint8
+	for i := 0; i < n; i++ {
+		x := vrtUint8()
+		buf[(head+1+i)%mod] = x
+		abs = append(abs, x)
+	}
+	q := &RingQueue{len: int64(n), content: &ringBuffer{buffer: buf, head: int64(head), tail: int64(tail), mod: int64(mod)}}
+	return q, abs
+}
+
+// vhRingAbs reads the abstraction (the FIFO content) back out of a ring and
+// checks the representation invariant.
+func vhRingAbs(q *RingQueue, name string) []interface{} {
+	c := q.content
+	vrtAssert(int64(len(c.buffer)) == c.mod, name)
+	vrtAssert(c.head >= 0 && c.head < c.mod && c.tail >= 0 && c.tail < c.mod, name)
+	n := (c.tail - c.head + c.mod) % c.mod
+	vrtAssert(q.len == n, name)
+	out := make([]interface{}, 0, n)
+	for i := int64(0); i < n; i++ {
+		out = append(out, c.buffer[(c.head+1+i)%c.mod])
+	}
+	return out
+}
+
+func vhSameSeq(got []interface{}, want []uint8, name string) {
+	vrtAssert(len(got) == len(want), name)
+	for i := range want {
+		if i < len(got) {
+			g, ok := got[i].(uint8)
+			vrtAssert(ok, name)
+			vrtAssert(g == want[i], name)
+		}
+	}
+}
+
+// VH_C02_ring_step: one Push / Pop / PopMany from an arbitrary valid state of
+// capacity mod (1..maxmod): invariant preserved and the abstraction commutes.
+// Covers every queue length and wrap position independent of history length,
+// including tail+1 == head (the growth branch).
+func VH_C02_ring_step() {
+	mod := vrtChoose(vrtParam("maxmod", 6)) + 1
+	q, abs := vhRingState(mod)
+	switch vrtChoose(3) {
+	case 0:
+		x := vrtUint8()
+		if int64(len(abs)) == q.content.mod-1 {
+			vrtReach("growth")
+		}
+		q.Push(x)
+		after := vhRingAbs(q, "inv-preserved")
+		vhSameSeq(after, append(append([]uint8{}, abs...), x), "push-appends")
+		if q.content.tail < q.content.head {
+			vrtReach("wrapped")
+		}
+	case 1:
+		got, ok := q.Pop()
+		after := vhRingAbs(q, "inv-preserved")
+		if len(abs) == 0 {
+			vrtReach("pop-empty")
+			vrtAssert(!ok && got == nil, "pop-empty-is-false")
+			vhSameSeq(after, abs, "pop-empty-unchanged")
+		} else {
+			g, isU8 := got.(uint8)
+			vrtAssert(ok && isU8 && g == abs[0], "pop-returns-oldest")
+			vhSameSeq(after, abs[1:], "pop-removes-oldest")
+		}
+	case 2:
+		n := vrtChoose(vrtParam("maxmany", 4))
+		got, ok := q.PopMany(int64(n))
+		after := vhRingAbs(q, "inv-preserved")
+		if len(abs) == 0 {
+			vrtAssert(!ok, "popmany-empty-is-false")
+		} else {
+			k := n
+			if k > len(abs) {
+				k = len(abs)
+			}
+			vrtAssert(ok, "popmany-ok")
+			vhSameSeq(got, abs[:k], "popmany-returns-oldest-in-order")
+			vhSameSeq(after, abs[k:], "popmany-removes-them")
+			vrtReach("popmany")
+		}
+	}
+}
